@@ -41,6 +41,20 @@ Definition wflush_atomic_stmt : Prop :=
   (lookup sk P_WORLD = lookup s P_WORLD \/
    is_file_with (utf8 (flush_text W)) mode (lookup sk P_WORLD)).
 
+(* names as they occur in world entries: non-empty, no whitespace, no ':' and no '/' *)
+Definition name_char (c : N) : bool := negb (py_space c) && negb (N.eqb c COLON) && negb (N.eqb c SLASH).
+Definition plain_name (s : str) : bool := negb (is_nil s) && forallb name_char s.
+Definition plain_slot (s : str) : bool := negb (is_nil s) && forallb (fun c => negb (py_space c)) s.
+Definition valid_went (e : went) : bool :=
+  plain_name (wcat e) && plain_name (wpkg e)
+  && negb (starts_with_c 35 (wcat e)) && negb (starts_with_c 64 (wcat e))
+  && match wslot e with Some s => plain_slot s | None => true end.
+
+(* the persisted text reads back as the same set *)
+Definition persist_stmt : Prop :=
+  forall W, NoDup W -> Forall (fun e => valid_went e = true) W ->
+  parse_world (flush_text W) = Some (wsort W) /\ Permutation (wsort W) W.
+
 (* acceptor for the "fault" stream (comparison B on the implementation's tree) *)
 Definition spec_wfault_ok (i : wfault_in) (r : val) : bool :=
   let s := winit_fs i in
